@@ -1,6 +1,7 @@
 import VaxisModel.Lemmas.Input
 import VaxisModel.Lemmas.InputLoop
 import VaxisModel.Lemmas.InputEvents
+import VaxisModel.Lemmas.InputFlow
 
 /-!
 # C03 — every terminal report becomes the right event; the input loop survives any input
@@ -11,7 +12,7 @@ and the reply channels).  The facts read from the source on every run are in `Ge
 -/
 namespace VaxisModel.Props.C03
 open VaxisModel.Model.Input VaxisModel.Model.InputLoop
-open VaxisModel.Lemmas.Input VaxisModel.Lemmas.InputLoop VaxisModel.Lemmas.InputEvents
+open VaxisModel.Lemmas.Input VaxisModel.Lemmas.InputLoop VaxisModel.Lemmas.InputEvents VaxisModel.Lemmas.InputFlow
 open VaxisModel.Spec.InputEvents (mouseEvent UEvent)
 
 /-! ## Tie to the source: the constants and guards the theorems rely on -/
@@ -174,6 +175,46 @@ example : ∀ r ∈ [SReport.pasteStart, .key (.print [97] 1), .pasteEnd, .key (
     intro p hp
     simp at hp
     rcases hp with rfl | rfl <;> simp
+
+/-! ## input_never_lost — the composed model: parser output → `handleSequence` → pending posts → event queue → application -/
+
+/-- **Queue mechanics.**  For every run of the input LTS — any labels (terminal input, goroutine
+steps, the application consuming, requesters calling / receiving / timing out), any queue
+capacity, any send kinds — the user-input events (keys, mouse reports, focus changes, paste
+brackets) delivered, queued or still pending are exactly those there at the start followed by what
+`handleSequence` posted for each sequence, in order: the queue, the blocking posts and the
+dropped non-blocking posts (never user input) lose, duplicate and reorder nothing. -/
+theorem flow_preserved (p : Params) (ls : List Label) (s s' : Sys) (hr : run p s ls = some s') (hnb : nbOK s.pend) :
+    ui (flow s') = ui (flow s) ++ ui (emitted p s ls) :=
+  (flow_run p ls s s' hr hnb).1
+
+/-- **input_never_lost.**  For every list of well-formed reports (keys in any encoding, SGR mouse,
+focus, paste brackets, replies of every shape, in-band resize, colour theme) arbitrarily
+interleaved, fed to the LTS as its terminal input under *any* schedule (labels in any order and
+number, any queue capacity, requesters other than `CursorPosition` active at any time), from a
+state with no cursor-position request outstanding: each key press, mouse report, focus change and
+paste boundary of the stream appears exactly once among delivered ++ queued ++ pending events, in
+stream order, mouse reports decoded per SGR-1006, keys inside a paste marked as pasted — after
+whatever user input was already in flight. -/
+theorem input_never_lost (p : Params) (rs : List SReport) (ls : List Label) (s s' : Sys)
+    (hin : inputSeqs ls = rs.map SReport.seq) (hw : ∀ r ∈ rs, r.Wf) (hreq : s.vs.reqCursorPos = false)
+    (hnc : ∀ l ∈ ls, l ≠ .cursorCall) (hnb : nbOK s.pend) (hr : run p s ls = some s') :
+    (visible (flow s')).filter uiU =
+      (visible (flow s)).filter uiU ++ (VaxisModel.Spec.InputEvents.specEvents s.vs.pastePending (rs.map SReport.spec)).filter uiU := by
+  rw [← visible_ui, ← visible_ui, flow_preserved p ls s s' hr hnb]
+  have := emitted_spec p ls rs s s' hin hw hreq hnc hr
+  rw [← this, ← visible_ui]
+  simp [visible, List.filterMap_append]
+
+/-- Non-vacuity: a paste bracket, a key, a DA1 reply, a mouse press through a queue of capacity 1
+with the application consuming in between; the run exists. -/
+example :
+    (match run { qcap := 1, kinds := Kinds.ofGen, b64 := fun _ => none } {}
+        [.input (SReport.seq .pasteStart), .step, .consume, .input (SReport.seq (.key (.print [97] 1))), .step,
+         .input (SReport.seq (.reply (.csi [ch '?'] [[62], [4]] (ch 'c')))), .consume, .step, .consume, .step,
+         .input (SReport.seq (.mouse 0 3 4 false)), .consume, .step] with
+     | some s => (flow s).length == 5 && s.delivered.length == 4
+     | none => false) = true := by decide
 
 /-! ## replies_internal -/
 
